@@ -690,6 +690,10 @@ def static_tie(cm, chk, pid, repo):
             text += ("\nFrom Coq Require Import Lia.\nFrom QV Require Import Base.Taylor Base.TaylorG Proofs.TaylorGen.\n"
                      "Import ListNotations.\nOpen Scope Z_scope.\n" + t2)
             info["translated"] += [w + " (loop nest, order-loop body)" for w in w2]
+            import translate_c02                      # glue around the kernels (harness/translate_c02.py)
+            t3, w3 = translate_c02.extra(repo)
+            text += t3
+            info["translated"] += w3
         else:
             import translate2
             import importlib
